@@ -21,6 +21,9 @@ type Net struct {
 	// OnDeliver, if set, observes every datagram at the moment it is put into a
 	// conn's inbox (driver goroutine).
 	OnDeliver func(to *SimConn, from string, data []byte)
+	// ForeignAddrs gives injected sources that are not conns of the simulated
+	// network their net.Addr (e.g. the peer's IP with another port).
+	ForeignAddrs map[string]net.Addr
 	// FreeDeliver, if set, takes every emitted datagram instead of the kernel's
 	// outbox (Mode R: free-running race mode).
 	FreeDeliver func(p *OutPkt)
@@ -116,6 +119,8 @@ func (n *Net) Deliver(to, from string, data []byte, label string) {
 	if fa == nil {
 		if pc := n.conns[from]; pc != nil {
 			fa = pc.addr
+		} else if ua := n.ForeignAddrs[from]; ua != nil {
+			fa = ua // an injected source with an address object of its own
 		} else {
 			fa = simAddr(from)
 		}
